@@ -11,23 +11,36 @@
 (*        | break_escape | dangling_ref | cyclic_ref | duplicate_key       *)
 (*        | big_number | negative_number | nest_deep | bytes               *)
 (*   node kind of the place it is applied to; spelling yaml | json.        *)
-(* Outcome record: [kind, located, line, col] with kind in                 *)
-(*   "ok" | "err" | "panic" | "timeout" | "crash".                         *)
+(* Outcome record: [kind, located, line, col, locs] with kind in           *)
+(*   "ok" | "err" | "panic" | "timeout" | "crash"; locs = the positions    *)
+(*   the diagnostic names, each judged against the file it names.          *)
 (***************************************************************************)
 EXTENDS Naturals, Sequences, FiniteSets, TLC
 
 Ops == {"delete", "retype_scalar", "retype_map", "retype_seq", "null", "break_escape", "dangling_ref", "cyclic_ref", "duplicate_key",
-        "big_number", "negative_number", "nest_deep", "bytes", "none"}
+        "big_number", "negative_number", "nest_deep", "bytes", "none",
+        \* a schema position referring to a component that contains itself through each composition keyword
+        "cyclic_oneof", "cyclic_anyof", "cyclic_allof", "cyclic_items", "cyclic_required", "cyclic_addl", "cyclic_pair",
+        \* tuple-form items with a null / scalar element
+        "tuple_null", "tuple_scalar"}
 Terminal == {"ok", "err"}
 
 \* the position of a located diagnostic exists in the document it names
 InDocument(o, doc) == o.line >= 1 /\ o.line <= doc.nlines /\ o.col >= 1 /\ o.col <= doc.linelen + 1
 
+\* A diagnostic may name several positions (one per location.Error of the chain, possibly
+\* in different files of a document set).  Each one names a file of the set, a position
+\* that exists in that file, and the first character of a node of that file: positions
+\* are derived from parsed nodes, so one that is not a node start was computed against
+\* another file or another node table.
+LocOK(x) == x.known /\ x.line >= 1 /\ x.line <= x.nlines /\ x.col >= 1 /\ x.col <= x.linelen + 1 /\ x.nodestart
+
 \* one spelling
 OutcomeOK(o, doc) ==
   /\ o.kind \in Terminal
   /\ (o.kind = "err" /\ o.located => InDocument(o, doc))
-  /\ (o.kind = "ok" => ~o.located)
+  /\ (o.kind = "err" => \A i \in 1..Len(o.locs) : LocOK(o.locs[i]))
+  /\ (o.kind = "ok" => ~o.located /\ o.locs = <<>>)
 
 \* A document that is valid before the fault and whose fault leaves data every schema
 \* admits is still accepted: "none" is the control and must be ok.
